@@ -112,6 +112,7 @@ type rt struct {
 	srcInc     int
 	startedInc int
 	stall   map[int64]bool // free mode: nodes whose first call blocks until released
+	slow    map[int64]bool // free mode: slow consumers (a short sleep per call)
 	stallCh chan struct{}
 	srcEnded chan struct{}
 	script     []srcPhase // free mode: per incarnation
@@ -267,6 +268,9 @@ func (h *hnode) decide(ev *firebolt.Event, it item) outcome {
 	h.r.log(sx.T(sx.L(5), sx.L(h.nid), it.tree()))
 	if h.r.stall[h.nid] {
 		<-h.r.stallCh // stalled until the harness has seen whether everybody else could go on
+	}
+	if h.r.slow[h.nid] {
+		time.Sleep(15 * time.Microsecond)
 	}
 	return h.freeOutcome(it, false)
 }
@@ -551,7 +555,7 @@ func newRT(lock bool, seed uint64) *rt {
 	caseSeq++
 	r := &rt{prefix: fmt.Sprintf("k%d_", caseSeq), lock: lock, seed: seed, nodes: map[string]*hnode{}, idOf: map[string]int64{},
 		srcCmd: make(chan srcCmd), errs: map[string]*errInfo{}, done: make(chan struct{}),
-		stall: map[int64]bool{}, stallCh: make(chan struct{}), srcEnded: make(chan struct{})}
+		stall: map[int64]bool{}, slow: map[int64]bool{}, stallCh: make(chan struct{}), srcEnded: make(chan struct{})}
 	cur = r
 	curMu.Unlock()
 	return r
@@ -645,6 +649,14 @@ func sortedItems(l []item) sx.Tree {
 		k = append(k, it.tree())
 	}
 	return sx.T(k...)
+}
+
+func bufferFull(id string) int64 {
+	v, err := util.GetCounterVecValue(metrics.Node().BufferFullEvents, id)
+	if err != nil {
+		return -1
+	}
+	return int64(v)
 }
 
 func counters(id string) (recv, proc, filt, fail, disc int64) {
